@@ -85,7 +85,7 @@ def cases(tier, seed):
     for c in range(nch):
         out.append(dict(fam="param", ops=1 if tier == "quick" else 2, chunk=c, nchunk=nch))
     phys = ["static", "tdep", "callable_current", "callable_eps"] + (["composite_tdep", "screening"] if tier == "thorough" else [])
-    for p, route in itertools.product(phys, ("disk", "memory")):
+    for p, route in itertools.product(phys, ("disk", "memory", "chain")):
         for k in (2,) if tier == "quick" else (1, 3):
             out.append(dict(fam="solution", phys=p, route=route, k=k))
     return out
@@ -446,10 +446,23 @@ def run_solution(case):
         kw["disorder_epsilon"] = _eps
     elif phys == "screening":
         o.update(include_screening=True, screening_tolerance=1e-2, terminal_psi=None)
+    if case["route"] == "chain":
+        o["output_file"] = "run.h5"
     sol = tdgl.solve(dev, tdgl.SolverOptions(**o), **kw)
     try:
-        sol.to_hdf5("copy.h5")
-        back = tdgl.Solution.from_hdf5("copy.h5")
+        if case["route"] == "chain":
+            # reload -> save again (in place and to a new file) -> reload: start from a non-initial (reloaded) object
+            sol.to_hdf5()
+            first = tdgl.Solution.from_hdf5("run.h5")
+            first.solve_step = 1
+            first.to_hdf5("copy1.h5")
+            second = tdgl.Solution.from_hdf5("copy1.h5")
+            second.to_hdf5()
+            second.to_hdf5("copy.h5")
+            back = tdgl.Solution.from_hdf5("copy.h5")
+        else:
+            sol.to_hdf5("copy.h5")
+            back = tdgl.Solution.from_hdf5("copy.h5")
     except Exception as exc:  # noqa: BLE001
         res.violate("solution-roundtrip-raises", route=case["route"], phys=phys, exc=type(exc).__name__, detail={"case": case, "msg": str(exc)[:300]})
         res.nontrivial = True
@@ -467,7 +480,7 @@ def run_solution(case):
     if not back.equals(sol):
         diffs.append("library-equals")
     steps = range(back.data_range[0], back.data_range[1] + 1)
-    if case["route"] == "disk":
+    if case["route"] in ("disk", "chain"):
         if tuple(back.data_range) != tuple(sol.data_range):
             diffs.append("data_range")
         for i in steps:
